@@ -43,7 +43,9 @@ def run(ctx):
     ctx.step(c13.uaf, ctx, "C05.uaf", [f for f in ctx.fb.functions() if f.file.endswith("/rcu_list.hpp")], floor=20,
              kinds=("erased", "deleted", "deallocated"))
     ctx.step(who, ctx)
-    ctx.step(common.rcu_writer_guard, ctx, "C05.wmutex", loads=False)
+    # loads: only erase's - links sampled before the mutex re-link stale (possibly already erased, soon freed) nodes into
+    # the live list; an insertion's stale view loses an element but frees nothing early (C12's concern)
+    ctx.step(common.rcu_writer_guard, ctx, "C05.wmutex", loads=("erase",))
     ctx.step(common.atomic_floors, ctx, "C05.orders", [RCU, NODE, ZLN], floor=30, files=["rcu_list.hpp"])
     ctx.step(common.witnesses, ctx, "C05.witness", ["C05"])
 
